@@ -91,6 +91,12 @@ structure StratCommutes [One α] [Div α] [NatCast α] (m : Model α) (s1 s2 : S
   /-- mixing categories: a permutation, up to dictionary order -/
   mixingCats : (m12.mixingCats.map alookup).Perm (m21.mixingCats.map alookup)
 
+/-- a state given as a function `pop` of the compartment read as (name, strata lookup): the vector
+of a model whose compartment list is `comps`.  Two models whose compartments correspond up to order and
+dictionary order are in "the same state" when their state vectors are `semState pop` of their lists. -/
+def semState (pop : String × (String → Option String) → α) (comps : List Comp) : List α :=
+  comps.map (fun c => pop (compSem c))
+
 /-- the Kronecker product of a list of evaluated mixing matrices exactly as `Run.mixingMatrix` forms
 it: `[[1]]` for none, otherwise the left fold -/
 def kronAll [One α] [Mul α] : List (Matrix α) → Matrix α
